@@ -91,6 +91,9 @@ func main() {
 		cfg.xcheckEvery = 2
 	} else {
 		cfg.Witnesses = 2
+		if n, err := strconv.Atoi(os.Getenv("SYMGO_ALLWIT")); err == nil && n > 0 {
+			cfg.Witnesses = n // debugging aid: validate up to n witness paths per harness natively, whatever their shape
+		}
 		cfg.xcheckEvery = 16
 		cfg.Deadline = time.Now().Add(8 * time.Minute)
 	}
@@ -381,7 +384,7 @@ func main() {
 		if strings.HasPrefix(status[f], "WITNESS-OK") {
 			witnessOK++
 		} else if !*noReplay {
-			inconclusive = append(inconclusive, fmt.Sprintf("ENCODING-MISMATCH: witness %s does not run natively as modelled: %s", f, status[f]))
+			inconclusive = append(inconclusive, fmt.Sprintf("ENCODING-MISMATCH: witness %s does not run natively as modelled: %s inputs=%s", f, status[f], compactInputs(f)))
 		}
 	}
 	for _, kf := range known {
@@ -616,4 +619,32 @@ func nativeReplay(hdir, target, overlay string) (string, error) {
 	cmd.Stderr = &buf
 	err := cmd.Run()
 	return buf.String(), err
+}
+
+// compactInputs: the scalar inputs and choices of a witness / counterexample file, for the log (byte arrays left out)
+func compactInputs(file string) string {
+	bz, err := os.ReadFile(file)
+	if err != nil {
+		return ""
+	}
+	var r struct {
+		Inputs  map[string]string `json:"inputs"`
+		Choices map[string]int    `json:"choices"`
+	}
+	if json.Unmarshal(bz, &r) != nil {
+		return ""
+	}
+	var ks []string
+	for k := range r.Inputs {
+		if !strings.Contains(k, "[") && !strings.HasPrefix(k, "bal.auto") {
+			ks = append(ks, k)
+		}
+	}
+	sort.Strings(ks)
+	var sb strings.Builder
+	for _, k := range ks {
+		fmt.Fprintf(&sb, "%s=%s ", k, r.Inputs[k])
+	}
+	fmt.Fprintf(&sb, "choices=%v", r.Choices)
+	return sb.String()
 }
